@@ -286,8 +286,8 @@ func doParent(c *Check, scens []Scenario, tier string, budget, procs int, args [
 	if len(results) != len(scens) {
 		infra = append(infra, fmt.Sprintf("%d scenarios planned, %d reported", len(scens), len(results)))
 	}
-	if len(perScen) > 40 {
-		perScen = perScen[:40]
+	if len(perScen) > 400 {
+		perScen = perScen[:400]
 	}
 	e := &ev.Evidence{PropertyID: c.ID, Tier: tier, Seed: ev.Seed(), Level: c.Level, WallS: time.Since(rep.Start).Seconds(),
 		Violations: len(rep.Violations), Assumptions: c.Assumptions, KnownFindingsHit: rep.KnownHitList(),
